@@ -11,7 +11,8 @@ Exit codes: 0 property held on everything explored (known findings are printed a
 import json, os, re, subprocess, sys, time, tempfile, shutil, hashlib, select, signal
 
 ROOT = os.path.dirname(os.path.abspath(__file__))
-BUILD = os.path.join(ROOT, 'build')
+BUILD = os.environ.get('VERIF_BUILD_DIR', os.path.join(ROOT, 'build'))      # developer aid (seeded-change evaluation): another build directory ...
+REPO_OVERRIDE = os.environ.get('VERIF_REPO')                                 # ... and another source tree than /repo; registered commands never set these
 TMP = os.path.join(BUILD, 'tmp')
 EVID = os.environ.get('VERIF_EVIDENCE_DIR', os.path.join(ROOT, 'evidence'))
 REPLAYS = os.path.join(ROOT, 'replays')
@@ -58,7 +59,8 @@ def sh(cmd, **kw):
 
 
 def build(variant):
-    r = sh(['make', '-C', ROOT, '-j16', variant], stdout=subprocess.PIPE, stderr=subprocess.STDOUT, text=True)
+    extra = ([f'REPO={REPO_OVERRIDE}'] if REPO_OVERRIDE else []) + ([f'B={BUILD}'] if 'VERIF_BUILD_DIR' in os.environ else [])
+    r = sh(['make', '-C', ROOT, '-j16', variant] + extra, stdout=subprocess.PIPE, stderr=subprocess.STDOUT, text=True)
     if r.returncode != 0:
         sys.stdout.write(r.stdout[-4000:])
         print('HARNESS-ERROR: build failed for variant', variant)
